@@ -24,7 +24,7 @@ func init() {
 		ID: "C10",
 		Meta: func(tier string) fw.Meta {
 			return fw.Meta{
-				Flavours: []string{"plain", "race", "cover"},
+				Flavours: []string{"plain", "race", "cover", "386"},
 				Blocks:   16,
 				Procs:    16,
 				Rule: "four generators. stack: histories of Push/Add/Pop/Clear with Len, IsEmpty, Top, Slice, Each (early stop), Peek(0..Len+1) after every op. mlink.Queue (zero value and NewQueue): Add/Pop/Clear incl. pop-to-empty-then-Add, with Len (constant-time counter) vs walked length, Front, Peek, Each. " +
